@@ -157,6 +157,10 @@ impl HandshakeState {
         self.s.dh_len()
     }
 
+    pub(crate) fn pub_len(&self) -> usize {
+        self.s.pub_len()
+    }
+
     #[cfg(feature = "hfs")]
     pub(crate) fn set_kem(&mut self, kem: Box<dyn Kem>) {
         self.kem = Some(kem);
